@@ -24,8 +24,8 @@ KeyOK(h)  == LET dd == DecodeB(HB(h)) IN dd[1] = "ok" /\ ~IsInf(dd[2])
 EOf(dg)   == HashToScalarB(HB(dg))                         \* <<"ok", e>> / <<"err">>
 
 Classes == {"r_zero", "s_zero", "high_s_rej", "high_s_acc", "x_ge_n", "R_inf", "e_zero", "digest_ge_n", "digest_short",
-            "digest_long", "accept", "reject", "enc_asn1", "enc_compact", "enc_rec", "enc_bogus", "rec_wrong_v", "btc_accept",
-            "btc_badenv", "btc_high_s", "hash_mismatch", "parse_reject", "cmp_shift_n", "digest_scribbled", "kept_key", "alt_path", "nil_opts",
+            "digest_long", "digest_huge", "accept", "reject", "enc_asn1", "enc_compact", "enc_rec", "enc_bogus", "rec_wrong_v", "btc_accept",
+            "btc_badenv", "btc_high_s", "hash_mismatch", "parse_reject", "pub_from_recycled_point", "cmp_shift_n", "digest_scribbled", "kept_key", "rfc6979_short_nonce", "alt_path", "nil_opts",
             "d_one", "d_nm1", "pub_yodd", "pub_yeven", "digest_zero", "digest_ones", "neg_s", "noneg_s", "v0", "v1",
             "sv_same", "build_der", "build_short", "build_compact", "inadmissible_len", "inadmissible_enc", "rfc6979", "hedged", "split_key", "sign_len_long",
             "reader_short_reads", "reader_fail_0", "reader_fail_mid", "reader_fail_31", "reader_err_with_last", "reader_ok",
@@ -48,7 +48,8 @@ VerifyClasses(q, eo, r, s, out) ==
                 ELSE {}))
   \cup (IF out THEN {"accept"} ELSE {"reject"})
 
-DigestClasses(dg) == (IF HexLen(dg) > W THEN {"digest_long"} ELSE {})
+DigestClasses(dg) == (IF HexLen(dg) > W THEN {"digest_long"} ELSE {}) \cup (IF HexLen(dg) > 2 * W THEN {"digest_huge"} ELSE {})
+                     \cup (IF HexLen(dg) < W /\ HexLen(dg) > 0 THEN {"digest_short"} ELSE {})
                      \cup (IF HexLen(dg) >= W /\ (N \preceq H(HexSlice(dg, 0, W))) THEN {"digest_ge_n"} ELSE {})
                      \cup (IF HexLen(dg) >= W /\ BigEq(H(HexSlice(dg, 0, W)), 0) THEN {"digest_zero"} ELSE {})
                      \cup (IF HexLen(dg) = W /\ BigEq(H(dg), Pow2(8 * W) -- 1) THEN {"digest_ones"} ELSE {})
@@ -154,7 +155,8 @@ Verdict(ev) ==
               /\ (ev.rng = "rfc6979" =>
                     LET k == OS2IP(Candidate(I2OSP(d, W), I2OSP(e, W), 1)) IN
                     ((k \prec N) /\ ~BigEq(k, 0)) => SignWithNonce(d, e, k) = <<"sig", r, s, ev.v>>),
-            SignClasses(d, e, r, s, ev.v) \cup DigestClasses(ev.digest) \cup (IF ev.rng = "rfc6979" THEN {"rfc6979"} ELSE {"hedged"}) >>
+            SignClasses(d, e, r, s, ev.v) \cup DigestClasses(ev.digest) \cup (IF ev.rng = "rfc6979" THEN {"rfc6979"} ELSE {"hedged"})
+            \cup (IF ev.rng = "rfc6979" /\ Has(ev, "shape") /\ (OS2IP(Candidate(I2OSP(d, W), I2OSP(e, W), 1)) \prec Pow2(8 * W - 8)) THEN {"rfc6979_short_nonce"} ELSE {}) >>
     [] ev.ev = "sig.Enc" ->
          LET d == H(ev.d)  dg == HB(ev.digest)
              admissible == /\ Len(dg) >= W
@@ -226,7 +228,7 @@ Verdict(ev) ==
     [] ev.ev = "key.PublicFromPoint" ->
          LET a == ToAffRaw(ev.p) IN
          << IF IsInf(a) THEN ~ev.ok ELSE ev.ok /\ ev.unc = EncUncompressedH(a) /\ ev.cmp = EncCompressedH(a),
-            IF IsInf(a) THEN {"pub_identity"} ELSE {"pub_ok_unc"} >>
+            (IF IsInf(a) THEN {"pub_identity"} ELSE {"pub_ok_unc"}) \cup (IF Has(ev, "recycled") /\ ~IsInf(a) THEN {"pub_from_recycled_point"} ELSE {}) >>
     [] ev.ev = "key.Immutable" ->         \* the caller scribbled over every slice / scalar / point handed out or passed in
          << /\ ev.kb2 = ev.kb1 /\ ev.pb2 = ev.pb1 /\ ev.pc2 = ev.pc1 /\ ev.pa2 = ev.pa1 /\ ev.pp2 = ev.pp1 /\ ev.sig2 = ev.sig1
             /\ ev.copies_ok /\ ev.verify_after /\ ev.kb1 = ev.d /\ ev.pb1 = EncUncompressedH(PMulG(H(ev.d))) /\ ev.pp1 = ev.pb1,
